@@ -15,6 +15,7 @@ import Driver.Ring
 import Driver.RingLog
 import Driver.RangeModule
 import Driver.CacheLog
+import Driver.Sock
 /-! `driver <model>`: one op per stdin line, one canonical result line per op on stdout. -/
 
 structure Model where
@@ -40,6 +41,8 @@ def dispatch (model : String) : Option Model :=
   | "ser" => some ⟨Driver.Ser.St, {}, Driver.Ser.step⟩
   | "file" => some ⟨Driver.File.St, {}, Driver.File.step⟩
   | "rpc" => some ⟨Driver.Rpc.D, {}, Driver.Rpc.step⟩
+  | "sock" => some ⟨Driver.Sock.D, {}, Driver.Sock.step⟩
+  | "doio" => some (pureModel Driver.Sock.doio)
   | "chan" => some ⟨Driver.Chan.D, {}, Driver.Chan.step⟩
   | "sync" => some ⟨Driver.Sync.D, {}, Driver.Sync.step⟩
   | "rangelock" => some ⟨Photon.RangeLock.State, {}, Driver.RangeLock.step⟩
